@@ -7,7 +7,7 @@ stdin : id \t (prog <stmt>…) \t -
         stmt ::= (defv e) | (print e) | (fun1 P e) | (fun2 P Q e) | (fun1d P d e) | (lam P e) | (forp n e)
         e    ::= (lit T v) | (var x) | (bin op l r) | (ite c a b) | (call0 f) | (call1 f a) | (call2 f a b) | (attr e a)
         T, P ::= nat | int | bool | str        op ::= add | sub | mul | lt | and
-stdout: id \t (base <welltyped> <size> "<erg source>") (inj <injector> <stmt> <slot> (<path>) <spec-illtyped> "<erg source>")… \t ok|viol:… \t 0
+stdout: id \t (base <welltyped> <size> "<erg source>") (inj <injector> <stmt> <slot> (<path>) <spec-illtyped> <known class or -> "<erg source>")… \t ok|viol:… \t 0
         one `inj` item for EVERY position of every injector (`positionsP`); `<spec-illtyped>` re-evaluates `check` on the injected
         program (theorem C05_inject_untypable says it is always true; a `false` here is reported as `viol:`).
         The Erg text starts with the marker line `print! "C05MARK"`.
@@ -79,7 +79,7 @@ def attrText (a : Nat) : String :=
 
 def litText : Ty → Nat → String
   | .nat, v => toString (v % 10)
-  | .int, v => "-" ++ toString (v % 10 + 1)
+  | .int, v => "(-" ++ toString (v % 10 + 1) ++ ")"
   | .bool, v => if v % 2 = 1 then "True" else "False"
   | .str, v => "\"s" ++ toString (v % 10) ++ "\""
 
@@ -138,7 +138,9 @@ def handle (line : String) : String :=
             let q := inject k pos p
             let ill := !check [] [] q
             (ill, "(inj " ++ injName k ++ " " ++ toString pos.stmt ++ " " ++ toString pos.slot ++ " (" ++
-              " ".intercalate (pos.path.map toString) ++ ") " ++ toString ill ++ " " ++ Sexp.quote (ergText q).toList ++ ")")))
+              " ".intercalate (pos.path.map toString) ++ ") " ++ toString ill ++ " " ++
+              (if inKLtEnum k p pos then "C05-lt-enum-operand-accepted"
+               else if inKLoopVarMul k p pos then "C05-loopvar-mul-str-accepted" else "-") ++ " " ++ Sexp.quote (ergText q).toList ++ ")")))
           let bad := items.filter (fun x => !x.1)
           id ++ "\t" ++ base ++ String.join (items.map (fun x => " " ++ x.2)) ++ "\t" ++
             (if bad.isEmpty then "ok" else "viol:injected-program-typable-in-the-spec") ++ "\t0"
